@@ -304,11 +304,13 @@ func (p *parser) checkAlias(mAlias ast.Alias, typeSensitive bool, start int, cac
 						reported_errors = append(reported_errors, err)
 						cached_arg.Errors = append(cached_arg.Errors, err)
 					},
-					module:      p.module,
-					aliases:     p.aliases,
-					resolver:    p.resolver,
-					typechecker: p.typechecker,
-					Operators:   p.Operators,
+					module:               p.module,
+					genericDepth:         p.genericDepth,
+					genericDepthExceeded: p.genericDepthExceeded,
+					aliases:              p.aliases,
+					resolver:             p.resolver,
+					typechecker:          p.typechecker,
+					Operators:            p.Operators,
 				}
 
 				if paramType.IsReference {
@@ -392,6 +394,9 @@ func (p *parser) checkAlias(mAlias ast.Alias, typeSensitive bool, start int, cac
 	return args, nil, nil, reported_errors
 }
 
+// limit for generic instantiations inside of generic instantiations
+const maxGenericDepth = 64
+
 // instantiates a generic function with the given types
 // genericTypes maps GenericTypeName -> Type
 // returns the new instantiation and any errors that occured during instatiation
@@ -412,6 +417,25 @@ func (p *parser) InstantiateGenericFunction(genericFunc *ast.FuncDecl, genericTy
 		}
 
 		parameters[i].Type.Type = ddptypes.GetInstantiatedType(parameters[i].Type.Type, genericTypes)
+	}
+
+	// a generic function may instantiate itself with ever bigger types (f<T> calls f<T Liste>)
+	// once the limit was hit, everything up to the outermost instantiation fails without trying again
+	if p.genericDepthExceeded == nil {
+		p.genericDepthExceeded = new(bool)
+	}
+	if p.genericDepth == 0 {
+		defer func() { *p.genericDepthExceeded = false }()
+	}
+	if p.genericDepth >= maxGenericDepth || *p.genericDepthExceeded {
+		*p.genericDepthExceeded = true
+		return nil, []ddperror.Error{ddperror.New(
+			ddperror.SEM_ERROR_INSTANTIATING_GENERIC_FUNCTION,
+			ddperror.LEVEL_ERROR,
+			genericFunc.NameTok.Range,
+			fmt.Sprintf("Die generische Funktion '%s' wird mehr als %d Mal ineinander instanziiert", genericFunc.Name(), maxGenericDepth),
+			genericFunc.Mod.FileName,
+		)}
 	}
 
 	genericModule := p.genericModule
@@ -457,6 +481,8 @@ func (p *parser) InstantiateGenericFunction(genericFunc *ast.FuncDecl, genericTy
 		errorHandler:          errorCollector.GetHandler(),
 		module:                genericFunc.Mod,
 		genericModule:         genericModule,
+		genericDepth:          p.genericDepth + 1,
+		genericDepthExceeded:  p.genericDepthExceeded,
 		aliases:               context.Aliases,
 		currentFunction:       &decl,
 		isCurrentFunctionBool: ddptypes.Equal(decl.ReturnType, ddptypes.WAHRHEITSWERT),
